@@ -54,7 +54,8 @@ def _t() -> Dict[str, List[Tuple[str, str, Callable[[Check], object]]]]:
                 ("R01.4", "a relayed block's spends carry signatures over the whole transaction (full validity before adoption)", c01.r01_3_4),
                 ("R20.14|R05.6", "a relayed block's height is its parent's plus one: refused by the relay handler itself, or else by the in-state validator",
                  lambda ck: _either(ck, [c20.r20_14, c05.r05_6]))],
-        "C10": [("R13.1", "a relayed transaction is admitted against the state the node serves (the state it synchronised to)", c13.r13_1),
+        "C10": [("R07.10", "what peers send during synchronisation is split into the recorded fields", c07.r07_10),
+                ("R13.1", "a relayed transaction is admitted against the state the node serves (the state it synchronised to)", c13.r13_1),
                 ("R13.3", "the chain manager stores every state it is given (side-branch blocks are kept)", c13.r13_3),
                 ("R03.2", "states built during download are built from each block's parent", c03.r03_2),
                 ("R04.4", "the height index used to answer get-blocks is the head's", c04.r04_4),
@@ -62,6 +63,7 @@ def _t() -> Dict[str, List[Tuple[str, str, Callable[[Check], object]]]]:
                 ("R09.8", "transactions and blocks are relayed to every active peer", c09.r09_8),
                 ("R09.10", "a peer that greeted is an active peer", c09.r09_10)],
         "C11": [("R07.1", "every message an unmodified peer sends decodes (field widths and signedness agree)", MSG),
+                ("R07.10", "every message an unmodified peer sends is split into the recorded fields", c07.r07_10),
                 ("R18.5", "list lengths on the wire use the encoding deployed nodes use", c18.r18_5)],
         "C12": [("R13.1", "no two pending transactions spend the same output (the candidate built from the pool passes validation)", c13.r13_1),
                 ("R13.3", "adopting the found block stores it as the served state, then cleans the pool against it", c13.r13_3),
